@@ -1,6 +1,7 @@
 """Per-shard report object; merged by the supervisor (vlab.check)."""
 import hashlib
 import json
+import os
 import time
 from collections import Counter
 
@@ -30,7 +31,26 @@ class Report:
         self.exhaustive = None
 
     # -- recording
+    def checkpoint(self, force=False):
+        """Periodically persist what was observed so far: an interpreter crash (e.g. a segfault of CPython
+        itself under the failpoint injector) then costs the scenario, not the whole shard's observations."""
+        path = getattr(self, 'checkpoint_path', None)
+        now = time.monotonic()
+        if not path or (not force and now - getattr(self, '_last_ckpt', 0) < 3.0):
+            return
+        self._last_ckpt = now
+        try:
+            tmp = path + '.tmp'
+            out = self.dump()
+            out['checkpoint'] = True
+            with open(tmp, 'w') as f:
+                json.dump(out, f, default=repr)
+            os.rename(tmp, path)
+        except Exception:
+            pass
+
     def case(self, key, nontrivial=True):
+        self.checkpoint()
         self.evaluations += 1
         k = key if isinstance(key, str) and len(key) == 16 else h(key)
         self.cases[k] = self.cases.get(k, False) or bool(nontrivial)
